@@ -25,7 +25,7 @@ WORLD_INFO = {'real': ['ResponseFuture (_make_query_plan, send_request, _query, 
                        'Session.execute_async host targeting', 'Cluster host up/down handling that creates and removes pools'],
               'stub': ['libev C binding', 'sockets/TCP', 'ThreadPoolExecutor', 'fake nodes', 'scripted LBP/retry policy']}
 ASSUMPTIONS = ['hosts whose node was crashed before the statements start count as legitimately skipped']
-REQUIRED_PROBES = ['coordinator_died_after_retry_decision', 'moved_to_next_host', 'no_host_available', 'host_without_pool_skipped', 'explicit_target', 'later_page_replanned']
+REQUIRED_PROBES = ['host_with_busy_connection', 'coordinator_died_after_retry_decision', 'moved_to_next_host', 'no_host_available', 'host_without_pool_skipped', 'explicit_target', 'later_page_replanned']
 
 RETRIABLE = ['read_timeout', 'write_timeout', 'unavailable', 'overloaded', 'server_error']
 
@@ -46,6 +46,12 @@ def gen_plan(rng, tier):
     down = [i for i in range(1, n) if rng.random() < 0.3]
     for i in down:
         p['faults'].append({'at': 0.05, 'kind': 'crash', 'node': i, 'how': 'rst', 'announce': rng.choice([None, 0.05])})
+    busy = [i for i in range(1, n) if i not in down and rng.random() < 0.2]
+    for i in busy:
+        p['faults'].append({'at': 0.05, 'kind': 'choke', 'node': i})
+    p['busy'] = busy
+    if rng.random() < 0.2:
+        p['never_convict'] = True
     nreq = rng.choice([1, 2, 4, 6])
     for i in range(nreq):
         order = list(range(n))
@@ -114,6 +120,20 @@ def run_plan(plan, seed, choices=None):
     orig_user = run.user
 
     def user(tid):
+        # one request into each choked connection: it sits in the driver's write queue, the socket reports EAGAIN, and from then on
+        # the connection refuses sends as busy
+        for b in plan.get('busy', []):
+            w.sleep(max(0.0, run.st['t_connected'] + 0.3 - sim.vnow()))
+            try:
+                f = w.session.execute_async("SELECT * FROM ks1.t /*rid=%d*/" % (900 + b), timeout=0.2, host=run.lbp.hosts.get(w.fc.nodes[b].addr))
+                f.add_callbacks(lambda r: None, lambda e: None)
+                try:
+                    f.result()
+                except Exception:
+                    pass
+            except Exception:
+                pass
+            sim.probe('host_with_busy_connection')
         orig_user(tid)
         for i, r in enumerate(plan['requests']):
             if not r.get('paged'):
@@ -137,7 +157,7 @@ def run_plan(plan, seed, choices=None):
     run.user = user
     status = run.run(settle=1.0)
     V = Violations()
-    crashed = set(f['node'] for f in plan['faults'] if f['kind'] == 'crash')
+    crashed = set(f['node'] for f in plan['faults'] if f['kind'] in ('crash', 'choke'))     # hosts that cannot be reached: skipped legitimately
     nontrivial = False
     for i, o in sorted(run.obs.items()):
         r = plan['requests'][i]
@@ -201,9 +221,10 @@ def run_plan(plan, seed, choices=None):
             later = [e for e in entries if e['seq'] > last['seq']]
             c0 = o.calls[0] if o.calls else None
             timed_out = c0 is None or (c0[2] == 'eb' and c0[3][0] == 'OperationTimedOut')
-            if last['decision'][0] in (RETRY, RETRY_NEXT_HOST) and not later and timed_out:
-                tried = set(e['node'] for e in entries)
-                left = [x for x in r['plan'] if x not in tried and x not in crashed]
+            tried = set(e['node'] for e in entries)
+            left = [x for x in r['plan'] if x not in tried and x not in crashed]
+            swallowed = any(b in r['plan'] and b not in tried for b in plan.get('busy', []))     # a choked host may have taken the write
+            if last['decision'][0] in (RETRY, RETRY_NEXT_HOST) and not later and timed_out and left and not swallowed:
                 V.add('C17/moves-on', 'plan-abandoned-after-retry-decision',
                       'request %d: the policy decided %s after node %d answered, that node then failed, and nothing further was sent although '
                       'plan hosts %r were never tried; the request ended with %s' % (i, DECISION_NAMES[last['decision'][0]], entries[-1]['node'] if entries else -1,
@@ -225,7 +246,8 @@ def run_plan(plan, seed, choices=None):
             replies = dict(((x['node'], x['attempt']), x['t']) for nn in w.fc.nodes for x in nn.replies if x['rid'] == i)
             inflight = set(e['node'] for e in entries if
                            (replies.get((e['node'], e['attempt'])) is None or replies[(e['node'], e['attempt'])] + 0.05 > c0[1]))
-            missing = [x for x in r['plan'] if w.fc.nodes[x].addr not in keys and x not in inflight]
+            # (a request written into a choked connection is in flight as far as the driver knows, although the node never sees it)
+            missing = [x for x in r['plan'] if w.fc.nodes[x].addr not in keys and x not in inflight and x not in plan.get('busy', [])]
             if missing:
                 V.add('C17/exhaustion', 'errors-map-incomplete', 'request %d: NoHostAvailable.errors lacks plan host(s) %r (has %r)'
                       % (i, missing, sorted(keys)))
